@@ -151,10 +151,16 @@ func (prophet *Prophet) transitivity(peer bpv7.EndpointID) {
 
 // sendMetadata sends our summary-vector with our delivery predictabilities to a peer
 func (prophet *Prophet) sendMetadata(destination bpv7.EndpointID) {
+	// The block gets a copy, as the bundle is serialized later on, while the map itself is changed concurrently.
 	prophet.dataMutex.RLock()
 	source := prophet.c.NodeId
-	metadataBlock := bpv7.NewProphetBlock(prophet.predictabilities)
+	predictabilities := make(map[bpv7.EndpointID]float64, len(prophet.predictabilities))
+	for peer, pred := range prophet.predictabilities {
+		predictabilities[peer] = pred
+	}
 	prophet.dataMutex.RUnlock()
+
+	metadataBlock := bpv7.NewProphetBlock(predictabilities)
 
 	err := sendMetadataBundle(prophet.c, source, destination, metadataBlock)
 
@@ -313,8 +319,10 @@ func (prophet *Prophet) SenderForBundle(bp BundleDescriptor) (sender []cla.Conve
 
 	for _, cs := range prophet.c.claManager.Sender() {
 		peerID := cs.GetPeerEndpointID()
+		prophet.dataMutex.RLock()
 		peerPred := prophet.peerPredictabilities[peerID][destination]
 		ownPred := prophet.predictabilities[destination]
+		prophet.dataMutex.RUnlock()
 
 		// is the peers delivery predictability for the destination greater than ours?
 		if peerPred > ownPred {
